@@ -88,3 +88,47 @@ Theorem C08_source_functional_methods :
   methods_of "FunctionalSequence<T> for Box<GenericArray<T,N>>" = Some [].
 Proof. repeat split. Qed.
 
+
+(* ---- T1: the one-expression bodies this property's code consists of besides the modelled core, as they stand
+        in the source now (coq/gen/GenSigs.v gen_thin_bodies) ---- *)
+From Coq Require Import String.
+From GA Require Import SigTie.
+From GAGen Require Import GenSigs.
+Local Open Scope string_scope.
+
+Theorem C08_source_thin_bodies :
+  thin_of "FunctionalSequence<T> for GenericArray<T,N>" "zip" = Some "rhs . inverted_zip (self , f)" /\
+  thin_of "Default for GenericArray<T,N>" "default" = Some "Self :: generate (| _ | T :: default ())" /\
+  thin_of "Clone for GenericArray<T,N>" "clone" = Some "self . map (Clone :: clone)" /\
+  thin_of "trait GenericSequence" "inverted_zip2" = Some "FromIterator :: from_iter (lhs . into_iter () . zip (self) . map (| (l , r) | f (l , r)))" /\
+  thin_of "trait FunctionalSequence" "map" = Some "FromIterator :: from_iter (self . into_iter () . map (f))" /\
+  thin_of "trait FunctionalSequence" "zip" = Some "rhs . inverted_zip2 (self , f)" /\
+  thin_of "trait FunctionalSequence" "fold" = Some "self . into_iter () . fold (init , f)".
+Proof. repeat split. Qed.
+
+(* ---- the trait defaults as regenerated (functional.rs map / fold, sequence.rs inverted_zip2): what the
+        by-reference forms run; once per index, in ascending order, slot i = what call i returned ---- *)
+From GA Require Import Pipe PipeTie.
+From GAGen Require Import GenPipe.
+Import Coq.Lists.List.
+
+Theorem C08_source_default_map_in_order : forall f g a so nd,
+  let '(o, m, t, e, c) := run_from_iter [a] so f g None (pipe_of gen_default_map nd) (length a) in
+  o = Ok (produced f 0 (map (fun x => [x]) a)) /\ c = map (fun x => [x]) a.
+Proof. exact src_default_map_in_order. Qed.
+
+Theorem C08_source_default_zip2_in_order : forall f g a b so nd, length a = length b ->
+  let '(o, m, t, e, c) := run_from_iter [b; a] so f g None (pipe_of gen_default_inverted_zip2 nd) (length a) in
+  o = Ok (produced f 0 (zrows a b)) /\ c = zrows a b.
+Proof. exact src_default_zip2_in_order. Qed.
+
+Theorem C08_source_default_fold_in_order : forall f g a so nd init,
+  let '(o, m, t, c) := run_fold [a] so f g None (pipe_of gen_default_fold nd) (length a) init in
+  o = FoldOk (fold_acc g 0 init a) /\ List.concat c = a.
+Proof. exact src_default_fold_in_order. Qed.
+
+(* a lent sequence is neither moved from nor dropped by fold, whatever call panics *)
+Theorem C08_source_default_fold_lent : forall f g pan a nd init,
+  let '(o, m, t, c) := run_fold [a] false f g pan (pipe_of gen_default_fold nd) (length a) init in
+  (m ++ t)%list = [].
+Proof. exact src_default_fold_lent_untouched. Qed.
